@@ -475,7 +475,7 @@ fn bloom_case(cap: usize, p: f64, kind: SetKind, rng: &mut Rng, rep: &mut Report
     if (fp as f64) > thr {
         rep.violate(
             "C14",
-            "false-positive-rate",
+            &format!("false-positive-rate/{}-set", format!("{kind:?}").to_lowercase()),
             format!("capacity {cap}, target {p}: {fp}/{probes} random never-added hashes reported present (rate {rate:.4}, allowed {:.4}); filter params (words,mask,exp,locs,shift)={params:?}, bits set {} in {} words", thr / probes as f64, b.bits_set(), b.words_touched()),
             desc.clone(),
         );
